@@ -40,7 +40,7 @@ Qed.
 Fixpoint count (i : nat) (l : list nat) : nat :=
   match l with [] => 0 | j :: r => (if Nat.eqb j i then 1 else 0) + count i r end.
 
-Lemma iter_shift : forall A (f : A -> A) n x, Nat.iter n f (f x) = f (Nat.iter n f x).
+Lemma iter_shift : forall A (f : A -> A) n x, iterate n f (f x) = f (iterate n f x).
 Proof. induction n as [|n IH]; intros x; cbn; [reflexivity|]. rewrite IH. reflexivity. Qed.
 
 (** PROJECTION: what render [i] and its buffer look like after ANY schedule is what [i] alone
@@ -48,12 +48,12 @@ Proof. induction n as [|n IH]; intros x; cbn; [reflexivity|]. rewrite IH. reflex
 Lemma crun_proj : forall bo sched (st : cstate) i,
   render_local bo ->
   (c_ts (crun bo st sched) i, c_buf (crun bo st sched) (bo i)) =
-  Nat.iter (count i sched) lstep (c_ts st i, c_buf st (bo i)).
+  iterate (count i sched) lstep (c_ts st i, c_buf st (bo i)).
 Proof.
   intros bo sched. induction sched as [|j r IH]; intros st i Hl; [reflexivity|].
   unfold GfxConc.crun. cbn [fold_left]. fold (crun bo (cstep bo st j) r).
   rewrite IH by exact Hl. rewrite cstep_proj by exact Hl. cbn [count].
-  destruct (Nat.eqb j i); cbn [Nat.add Nat.iter]; [rewrite iter_shift|]; reflexivity.
+  destruct (Nat.eqb j i); cbn [Nat.add iterate]; [rewrite iter_shift|]; reflexivity.
 Qed.
 
 (* ---------------------------------------------------------------- one render alone *)
@@ -82,13 +82,13 @@ Proof.
   destruct (t_todo t) as [|s rest] eqn:Et.
   - exists done. rewrite Et. auto.
   - destruct (t_pc t) as [| | | |size] eqn:Ep.
-    + exists done. cbn [t_todo t_pc t_out]. rewrite Et. cbn. auto.
-    + exists done. cbn [t_todo t_pc t_out]. rewrite Et. split; [auto|]. split; [auto|].
+    + exists done. cbn [t_todo t_pc t_out]. cbn. auto.
+    + exists done. cbn [t_todo t_pc t_out]. split; [auto|]. split; [auto|].
       unfold b_write. cbn [b_pos b_data]. rewrite Hp. cbn [firstn app Nat.add].
       split; [reflexivity|]. apply firstn_app_exact.
-    + exists done. cbn [t_todo t_pc t_out]. rewrite Et. split; [auto|]. split; [auto|].
+    + exists done. cbn [t_todo t_pc t_out]. split; [auto|]. split; [auto|].
       unfold b_truncate. cbn [b_pos b_data]. destruct Hp as [Hp1 Hp2]. auto.
-    + exists done. cbn [t_todo t_pc t_out]. rewrite Et. split; [auto|]. split; [auto|].
+    + exists done. cbn [t_todo t_pc t_out]. split; [auto|]. split; [auto|].
       destruct Hp as [Hp1 Hp2]. auto.
     + exists (done ++ [s]). cbn [t_todo t_pc t_out]. destruct Hp as [Hp1 Hp2].
       split; [rewrite <- app_assoc; exact Hs|]. split.
@@ -96,7 +96,7 @@ Proof.
       * destruct rest; auto.
 Qed.
 
-Lemma iter_inv : forall strips n tb, solo_inv strips tb -> solo_inv strips (Nat.iter n lstep tb).
+Lemma iter_inv : forall strips n tb, solo_inv strips tb -> solo_inv strips (iterate n lstep tb).
 Proof. induction n as [|n IH]; intros tb H; cbn; [exact H|]. apply lstep_inv. apply IH. exact H. Qed.
 
 Lemma start_inv : forall strips b, solo_inv strips (render_start B strips, b).
@@ -106,26 +106,26 @@ Qed.
 
 (** progress: five steps send one line *)
 Lemma five_steps : forall s rest out b,
-  exists b', Nat.iter 5 lstep ({| t_todo := s :: rest; t_pc := LSeek; t_out := out |}, b)
-             = ({| t_todo := rest; t_pc := LSeek; t_out := out ++ [(b_pos b', b_data b')] |}, b').
-Proof. intros. cbn. eexists. reflexivity. Qed.
+  exists o b', iterate 5 lstep ({| t_todo := s :: rest; t_pc := LSeek; t_out := out |}, b)
+               = ({| t_todo := rest; t_pc := LSeek; t_out := out ++ [o] |}, b').
+Proof. intros. cbn. eexists. eexists. reflexivity. Qed.
 
-Lemma iter_add : forall A (f : A -> A) n m x, Nat.iter (n + m) f x = Nat.iter n f (Nat.iter m f x).
+Lemma iter_add : forall A (f : A -> A) n m x, iterate (n + m) f x = iterate n f (iterate m f x).
 Proof. induction n as [|n IH]; intros; cbn; [reflexivity|]. rewrite IH. reflexivity. Qed.
 
 Lemma solo_ends : forall strips out b,
-  t_todo (fst (Nat.iter (5 * length strips) lstep
+  t_todo (fst (iterate (5 * length strips) lstep
                  ({| t_todo := strips; t_pc := LSeek; t_out := out |}, b))) = [].
 Proof.
   induction strips as [|s rest IH]; intros out b; [reflexivity|].
   replace (5 * length (s :: rest)) with (5 * length rest + 5) by (cbn [length]; lia).
-  rewrite iter_add. destruct (five_steps s rest out b) as [b' E]. rewrite E. apply IH.
+  rewrite iter_add. destruct (five_steps s rest out b) as (o & b' & E). rewrite E. apply IH.
 Qed.
 
 Lemma lstep_done : forall t b, t_todo t = [] -> lstep (t, b) = (t, b).
 Proof. intros t b H. unfold GfxConc.lstep. rewrite H. reflexivity. Qed.
 
-Lemma iter_done : forall n t b, t_todo t = [] -> Nat.iter n lstep (t, b) = (t, b).
+Lemma iter_done : forall n t b, t_todo t = [] -> iterate n lstep (t, b) = (t, b).
 Proof. induction n as [|n IH]; intros; cbn; [reflexivity|]. rewrite IH by assumption. apply lstep_done. assumption. Qed.
 
 (* ---------------------------------------------------------------- the theorems *)
@@ -171,8 +171,8 @@ Proof.
   replace (count i sched) with ((count i sched - 5 * length (inputs i)) + 5 * length (inputs i)) in P by lia.
   rewrite iter_add in P.
   pose proof (solo_ends (inputs i) [] (bufs (bo i))) as E. unfold render_start in P.
-  destruct (Nat.iter (5 * length (inputs i)) lstep _) as [t b] eqn:Et. cbn [fst] in E.
-  rewrite iter_done in P by exact E. inversion P. exact E.
+  destruct (iterate (5 * length (inputs i)) lstep _) as [t b] eqn:Et. cbn [fst] in E.
+  rewrite iter_done in P by exact E. inversion P as [[H0 H1]]. rewrite H0. exact E.
 Qed.
 
 Lemma own_buffer_local : render_local own_buffer.
@@ -181,11 +181,11 @@ Proof. intros i j H. exact H. Qed.
 (** the strips of the render plan and the iterm2 header: per line the File= command carries
     [size=] = the length of the encoded strip and the base64 of the encoded strip *)
 Lemma lines_emit : forall (C : Type) (b64 : list B -> list C) bo inputs bufs sched i cols konsole raw bpl rh,
-  render_local bo -> inputs i = strips B raw bpl rh ->
+  render_local bo -> inputs i = strips raw bpl rh ->
   let st := crun bo (cstart B inputs bufs) sched in
   t_todo (c_ts st i) = [] ->
   map (fun o => (iterm2_header BLines (fst o) cols 1 konsole, b64 (snd o))) (t_out (c_ts st i))
-  = map (fun s => iterm2_emit B C b64 BLines cols 1 konsole (enc s)) (strips B raw bpl rh).
+  = map (fun s => iterm2_emit b64 BLines cols 1 konsole (enc s)) (strips raw bpl rh).
 Proof.
   intros C b64 bo inputs bufs sched i cols konsole raw bpl rh Hl Hi st Hd.
   destruct (lines_render_local bo inputs bufs sched i Hl) as [_ H]. fold st in H.
